@@ -10,15 +10,29 @@ THREE = {'**=', '...', '//=', '<<=', '>>='}
 
 
 def supported(s):
+  """copy of Lexer.supported: bytes 10 and 32..126 only; no f-string prefix (f, fr, rf in any case, directly in front
+  of a quote) at a place where a token may start.  Inside a run of identifier characters that begins with a letter or
+  underscore and does not follow a '.', no token starts, so 'pdf' or 'self' are fine; anywhere else the prefix is refused."""
   for ch in s:
     if not (ch == '\n' or 32 <= ord(ch) <= 126):
       return False
-  for i in range(len(s)):
-    if s[i] in 'fF':
-      if s[i + 1:i + 2] in ('"', "'"):
+  quote = ('"', "'")
+  state = 0          # 0: behind a non-identifier character (or at the start); 1: behind a '.';
+                     # 2: inside a run that began with a letter / underscore, not behind a '.'; 3: inside any other run
+  for i, c in enumerate(s):
+    if state != 2:
+      a, b, q = s[i:i + 1], s[i + 1:i + 2], s[i + 2:i + 3]
+      if a in ('f', 'F') and (b in quote or (b in ('r', 'R') and q in quote)):
         return False
-      if s[i + 1:i + 2] in ('r', 'R') and s[i + 2:i + 3] in ('"', "'"):
+      if a in ('r', 'R') and b in ('f', 'F') and q in quote:
         return False
+    if c.isalnum() or c == '_':
+      if state == 0:
+        state = 2 if not c.isdigit() else 3
+      elif state == 1:
+        state = 3
+    else:
+      state = 1 if c == '.' else 0
   return True
 
 
